@@ -45,7 +45,7 @@ InitM(Pg) ==
     out |-> EmptyFn, ib |-> EmptyFn, lz |-> EmptyFn,
     bt |-> EmptyFn, cur |-> [k \in 1..Len(Pg.kinds) |-> 0], bcount |-> [k \in 1..Len(Pg.kinds) |-> 0],
     stack |-> <<>>, sbat |-> {}, active |-> 0,
-    cx |-> EmptyFn, sv |-> [v \in 1..(2 * Pg.nvars) |-> 0], saved |-> EmptyFn,
+    cx |-> EmptyFn, sv |-> [v \in 1..(2 * Pg.nvars) |-> SvDefault(Pg, v)], saved |-> EmptyFn,
     running |-> {},         \* tasks whose generator is executing right now (AsyncTask.running)
     reg |-> EmptyFn,        \* DeduplicateDecorator.tasks: (function, key) -> task
     uidc |-> 0, round |-> 0, sched |-> <<>>, evs |-> <<>>, stuck |-> FALSE ]
@@ -323,9 +323,9 @@ RunTerm(M, F, t, k) ==
          IN IF deps = <<>> THEN Continue(M2, F, t) ELSE Epilogue(M2, F, t)
     [] tm.k = "return" -> BodyReturn(SegEndEv(M, t, k, 2, Val("N", 0, <<>>)), F, t, tm.ret)
     [] tm.k = "result" -> BodyReturn(SegEndEv(M, t, k, 3, Val("N", 0, <<>>)), F, t, 0)
-    [] tm.k \in {"raise", "raiseb"} -> LET u == M.uidc + 1 IN
+    [] tm.k \in {"raise", "raiseb", "raisec"} -> LET u == M.uidc + 1 IN
                           BodyRaise(SegEndEv([M EXCEPT !.uidc = u], t, k, 4, Val("N", 0, <<>>)), F, t,
-                                    VX((IF tm.k = "raise" THEN 10000 ELSE 500000) + t * 100 + k), u)
+                                    VX((IF tm.k = "raise" THEN 10000 ELSE IF tm.k = "raiseb" THEN 500000 ELSE 600000) + t * 100 + k), u)
 
 (* ---------------- one step of the machine --------------------------------------------------- *)
 IsBlocked(M, t) == \E i \in 1..Len(M.tk[t].deps) : ~IsDone(M, M.tk[t].deps[i])
